@@ -369,16 +369,16 @@ Section Build.
     | O => BFuel
     | S fuel' =>
         let mname := md_name d in
-        bdo fields <-
-          (match md_fields d with
-           | [] => BOk [placeholder_field path]
-           | fs =>
-               bdo l <- build_field_list (build_message fuel') d path fs;
-               BOk (if o_sort cfg then sort_by (fun f => fi_name (f_info f)) l else l)
-           end);
+        (* BuildFields: an excluded field contributes nothing; when no field is left (no field declared,
+           or every field excluded) the placeholder is injected and the message counts as empty *)
+        bdo l <- build_field_list (build_message fuel') d path (md_fields d);
+        let fields := match l with
+                      | [] => [placeholder_field path]
+                      | _ :: _ => if o_sort cfg then sort_by (fun f => fi_name (f_info f)) l else l
+                      end in
         let inj := match o_injected cfg path with Some l => l | None => [] end in
         BOk (Msg mname fields (map go_name (md_oneofs d)) inj
-                 (match md_fields d with [] => true | _ => false end)
+                 (match l with [] => true | _ :: _ => false end)
                  (zero_struct (S (List.length table)) mname))
     end.
 End Build.
